@@ -1856,6 +1856,7 @@ impl DnsOutgoing {
     pub(crate) fn add_answer_with_additionals(
         &mut self,
         msg: &DnsIncoming,
+        q_name: &str,
         service: &ServiceInfo,
         intf: &MyIntf,
         dns_registry: &DnsRegistry,
@@ -1875,10 +1876,19 @@ impl DnsOutgoing {
         let service_fullname = dns_registry.resolve_name(service.get_fullname());
         let hostname = dns_registry.resolve_name(service.get_hostname());
 
+        // The answer is the PTR record that was asked for: the one of the service
+        // type, or the one of the subtype (RFC 6763 section 7.1).
+        let for_subtype = service.get_subtype().as_deref() == Some(q_name);
+        let ptr_name = if for_subtype {
+            q_name
+        } else {
+            service.get_type()
+        };
+
         let ptr_added = self.add_answer(
             msg,
             DnsPointer::new(
-                service.get_type(),
+                ptr_name,
                 RRType::PTR,
                 CLASS_IN,
                 service.get_other_ttl(),
@@ -1891,7 +1901,7 @@ impl DnsOutgoing {
             return;
         }
 
-        if let Some(sub) = service.get_subtype() {
+        if let Some(sub) = service.get_subtype().as_ref().filter(|_| !for_subtype) {
             trace!("Adding subdomain {}", sub);
             self.add_additional_answer(DnsPointer::new(
                 sub,
